@@ -637,12 +637,14 @@ func (hs *serverHandshakeStateTLS13) doHelloRetryRequest(selectedGroup CurveID) 
 				c.sendAlert(alertDecryptError)
 				return nil, errors.New("tls: failed to decrypt second client hello encrypted client hello extension payload")
 			}
+			verifEmit(c, "ech_encoded_inner", encodedInner)
 
 			echInner, err := decodeInnerClientHello(clientHello, encodedInner)
 			if err != nil {
 				c.sendAlert(alertIllegalParameter)
 				return nil, errors.New("tls: client sent invalid encrypted client hello extension")
 			}
+			verifEmit(c, "ech_inner", echInner.original)
 
 			clientHello = echInner
 		}
